@@ -74,7 +74,10 @@ func newShadowSyncer(env *lmdb.Env, inst string, lc config.LMDB) (*syncer.Syncer
 	st := memory.New()
 	conf := config.Config{Instance: inst, StorageRetryCount: 1, StorageRetryInterval: time.Millisecond,
 		LMDBPollInterval: time.Millisecond, StoragePollInterval: time.Millisecond,
-		MemoryDownloadedSnapshots: 2, MemoryDecompressedSnapshots: 2}
+		MemoryDownloadedSnapshots: 2, MemoryDecompressedSnapshots: 2,
+		// shipped defaults: sweeper disabled, with its parameters set
+		Sweeper: config.Sweeper{Enabled: false, RetentionDays: 370, Interval: 6 * time.Hour, FirstInterval: 10 * time.Minute,
+			LockDuration: 50 * time.Millisecond, ReleaseDuration: 50 * time.Millisecond}}
 	s, err := syncer.New("db", env, st, conf, lc, syncer.Options{})
 	if err != nil {
 		panic(err)
